@@ -7,7 +7,7 @@ index, and promotion to the real tree is callable only from write entry points."
 import ast
 
 from .. import ctx as ctxmod
-from ..cfg import cfg_of, ENTRY
+from ..cfg import cfg_of, ENTRY, EXIT
 from ..src import own_nodes, norm
 from ..report import AnalysisError
 from . import treefacts as tf
@@ -242,6 +242,26 @@ def run(chk):
             chk.ob('C11-L6', 'SubComponent._set_value does not promote for the initial None', ok,
                    'promotion runs under `%s`' % (bctx or 'no condition'), '%s:%d' % (sv.module.relpath, s.lineno),
                    key='C11-L6|subcomponent')
+
+    # ---- L10: a completed set() promotes its owner
+    chk.rule('C11-L10', 'every normal way out of ElementList.set passes the promotion of the owner (set_parent_to_traversal): the child '
+                        'was appended or put in place of another one in an owner that may itself be shadow, and a write must '
+                        'materialise the path it went through')
+    st10 = ix.func('core.ElementList.set')
+    g10 = cfg_of(st10)
+    promo_nodes = {g10.node_for(s.node) for s in cg.sites[st10.qualname]
+                   if s.kind == 'call' and any(t.kind == 'func' and t.func is promo for t in s.targets)}
+    promo_nodes.discard(None)
+    if not promo_nodes:
+        chk.fail('C11-L10', 'ElementList.set promotes its owner', 'set() no longer calls set_parent_to_traversal at all: a write through '
+                 'a shadow owner is lost', st10.loc, key='C11-L10|none')
+    else:
+        free = g10.reach(ENTRY, avoid=promo_nodes, labels_ok=lambda s_, d_, lab: lab != 'exc')
+        bad10 = EXIT in free
+        chk.ob('C11-L10', 'every normal exit of ElementList.set is preceded by the promotion of the owner', not bad10,
+               'set() can return normally without set_parent_to_traversal(): when the owner was reached through a read-created '
+               '(shadow) element, the assigned child lives in an owner that is never attached -- the write is lost',
+               st10.loc, key='C11-L10|set')
 
     # ---- L7
     reach2 = cg.reachable_cs(entries, stop=lambda fq: fq == ce.qualname)
